@@ -193,11 +193,27 @@ func runERC20Lock(ctx *action.Context, tx action.RawTx) (bool, action.Response) 
 		return false, action.Response{Log: fmt.Sprintf("Token lock exceeded limit ,for Token : %s ", token.TokName)}
 	}
 
+	// one external transaction backs one tracker, as for ether locks: a lock in progress or
+	// completed cannot be submitted again, a failed one can be tried again
+	name := ethcommon.BytesToHash(erc20lock.ETHTxn)
+	if ctx.ETHTrackers.WithPrefixType(ethereum.PrefixOngoing).Exists(name) || ctx.ETHTrackers.WithPrefixType(ethereum.PrefixPassed).Exists(name) {
+		return false, action.Response{
+			Log: "Tracker already exists / Lock for this ETHTX in progress or has completed successfully",
+		}
+	}
+	if ctx.ETHTrackers.WithPrefixType(ethereum.PrefixFailed).Exists(name) {
+		res, err := ctx.ETHTrackers.WithPrefixType(ethereum.PrefixFailed).Delete(name)
+		if err != nil || !res {
+			return false, action.Response{
+				Log: "Error deleting tracker from store",
+			}
+		}
+	}
 	tracker := ethereum.NewTracker(
 		ethereum.ProcessTypeLockERC,
 		erc20lock.Locker,
 		erc20lock.ETHTxn,
-		ethcommon.BytesToHash(erc20lock.ETHTxn),
+		name,
 		witnesses,
 	)
 
